@@ -5,7 +5,7 @@ tier="${TIER:-quick}"
 mkdir -p /tmp/mutlogs
 for spec in "$@"; do
   prop="${spec%%:*}"; patch="${spec#*:}"
-  tag=$(echo "$patch" | sed 's#/tmp/seedwork2/\(C[0-9]*\)/out/#\1-w2#; s#/tmp/seedwork/##; s#/out/#-#; s#/patch.diff##; s#/#_#g')
+  tag=$(echo "$patch" | sed 's#/tmp/seedwork2/\(C[0-9]*\)/out/#\1-w2#; s#/tmp/seedwork3/\(C[0-9]*\)/out/#\1-w3#; s#/tmp/seedwork/##; s#/out/#-#; s#/patch.diff##; s#/#_#g')
   ( VERIF_JOBS=${JOBS:-6} "$VERIF/bin/mutant.sh" "$patch" "$prop" "$tier" > "/tmp/mutlogs/$prop-$tag.log" 2>&1; rc=$?
     v=$(grep -m1 "class=" "/tmp/mutlogs/$prop-$tag.log" | cut -c1-260)
     echo "MUTANT $tag check=$prop exit=$rc $v" ) &
